@@ -105,6 +105,7 @@ func genC04(g *Gen) {
 		}
 	})
 	g.aggExtremes()
+	g.sortedRuns("GroupBy", toBS("rid"))
 	g.d21Witness("GroupBy")
 	g.runsWithHoles("GroupBy", toBS("rid"))
 	g.keyProducts("GroupBy", toBS("rid"))
@@ -211,6 +212,7 @@ func genC05(g *Gen) {
 			g.do(Step{Op: "Distinct", Recv: f, Cols: bsList(k), Null: g.rng.Intn(2) == 0})
 		}
 	})
+	g.sortedRuns("Distinct", rid)
 	g.d21Witness("Distinct")
 	g.runsWithHoles("Distinct", rid)
 	g.keyProducts("Distinct", rid)
@@ -480,6 +482,34 @@ func (g *Gen) aggExtremes() {
 			gid := len(g.x.groupers) - 1
 			g.do(Step{Op: "Aggregate", Recv: gid, Aggs: []Agg{{Fn: FnRef{K: "builtin", Sym: "max"}, Col: toBS("A")}, {Fn: FnRef{K: "builtin", Sym: "min"}, Col: toBS("A"), As: toBS("mn")},
 				{Fn: FnRef{K: "builtin", Sym: "max"}, Col: toBS("F"), As: toBS("fmax")}, {Fn: FnRef{K: "builtin", Sym: "min"}, Col: toBS("F"), As: toBS("fmin")}, {Fn: FnRef{K: "builtin", Sym: "count"}, Col: toBS("A"), As: toBS("n")}}})
+		}
+		g.end()
+	}
+}
+
+// sortedRuns: frames sorted on (key, value) - so that equal keys form runs in frame order while the stored
+// order is arbitrary - with enough distinct keys for the hash table to grow once or twice, then grouped
+func (g *Gen) sortedRuns(op string, rid BS) {
+	for rep := 0; rep < g.pick(150, 1500); rep++ {
+		n := 8 + g.rng.Intn(40)
+		card := 5 + g.rng.Intn(16)
+		k, v := make([]int64, n), make([]int64, n)
+		sv := make([]*BS, n)
+		for i := range k {
+			k[i], v[i] = int64(g.rng.Intn(card)), int64(g.rng.Intn(50))
+			sv[i] = bsp("k" + itoa(int(k[i])))
+		}
+		g.begin("sorted runs")
+		f := g.do(Step{Op: "New", Recv: -1, HasOrder: true, ColOrder: bsList([]string{"K", "S", "V"}), Data: []ColData{{Name: toBS("K"), Kind: "int", Ints: k},
+			{Name: toBS("S"), Kind: "string", Strs: sv}, {Name: toBS("V"), Kind: "int", Ints: v}}})
+		f = g.do(Step{Op: "WithRowNums", Recv: f, Dst: rid})
+		key := g.oneOf([]string{"K", "S"})
+		f = g.do(Step{Op: "Sort", Recv: f, Orders: []Order{{Col: toBS(key), Rev: g.rng.Intn(3) == 0}, {Col: toBS("V")}}, Rid: rid})
+		if op == "GroupBy" {
+			g.do(Step{Op: "GroupBy", Recv: f, Cols: bsList([]string{key}), Rid: rid})
+			g.do(Step{Op: "Aggregate", Recv: len(g.x.groupers) - 1, Aggs: []Agg{{Fn: FnRef{K: "builtin", Sym: "count"}, Col: toBS("V")}, {Fn: FnRef{K: "builtin", Sym: "sum"}, Col: toBS("V"), As: toBS("sum")}}})
+		} else {
+			g.do(Step{Op: "Distinct", Recv: f, Cols: bsList([]string{key}), Rid: rid})
 		}
 		g.end()
 	}
